@@ -111,10 +111,16 @@ theorem rs_tables_eq_py :
 theorem rs_is_leap_eq (y : Int) (hy : 0 ≤ y) : Rs.is_leap y = Gen.is_leap y := by
   unfold Rs.is_leap Gen.is_leap
   simp only [Int.tmod_eq_emod_of_nonneg hy]
+  -- finished on the propositional level, so that a rearrangement of either source expression is harmless
+  all_goals
+    rw [Bool.eq_iff_iff]
+    simp only [Bool.and_eq_true, Bool.or_eq_true, beq_iff_eq, bne_iff_ne, ne_eq]
+    omega
 
 theorem rs_p_eq (y : Int) (hy : 0 ≤ y) : Rs.p y = gp y := by
   unfold Rs.p gp
   simp only [Int.tdiv_eq_ediv_of_nonneg hy]
+  all_goals omega
 
 theorem gp_nonneg (y : Int) (hy : 0 ≤ y) : 0 ≤ gp y := by unfold gp; omega
 
